@@ -1005,6 +1005,9 @@ class AI(object):
             if x.get('kind') in ('DeclRefExpr', 'MemberExpr', 'ArraySubscriptExpr') or \
                     (x.get('kind') == 'UnaryOperator' and x.get('opcode') == '*'):
                 return self.eval(sub, st, u)
+            if x.get('kind') == 'CallExpr' and callee(x) and callee(x)[0] == 'fn' and callee(x)[1].get('name') in ('min', 'max', 'clamp') \
+                    and (callee(x)[1].get('_qn') or '').startswith('std::'):
+                return self.eval(x, st, u)       # a reference to one of the arguments: read as its value
             out = []
             for (l, s) in self.lval(sub, st, u):
                 out.append((self._load(e, l, s, u, sub), s))
@@ -1982,6 +1985,75 @@ class AI(object):
                     out.append((Ptr('M', pv.target, Int(0, hi)), s2))
                 else:
                     out.append((Ptr('M', None, None), s2))
+        return out
+
+    def _x_int_args(self, e, args, st, u):
+        cur = [(st, [])]
+        for a in args:
+            cur = [(s2, vs + [v]) for (s_, vs) in cur for (v, s2) in self.eval(a, s_, u)]
+        return cur
+
+    def x_abs(self, e, args, st, u):
+        """std::abs / abs / labs / llabs on integers: |x| (the minimum of the type has no absolute value: reported as an
+        overflow of the call and the result taken as any value of the type)."""
+        if len(args) != 1 or not int_type(dtype(e)):
+            return self._unknown_call(e, args, st, u, callee(e))
+        out = []
+        tr = type_range(int_type(dtype(e)))
+        for (s, (v,)) in self._x_int_args(e, args, st, u):
+            if not isinstance(v, Int):
+                out.append((Int(0, tr[1]), s))
+                continue
+            if v.lo < -tr[1]:
+                self.obs.overflow(self, e, Int(-v.hi if v.hi < 0 else 0, -v.lo), int_type(dtype(e)), s)
+                lo_ = -tr[1]
+            else:
+                lo_ = v.lo
+            cands = [abs(lo_), abs(v.hi)]
+            lo = 0 if lo_ <= 0 <= v.hi else min(cands)
+            out.append((Int(lo, max(cands)), s))
+        return out
+
+    x_labs = x_abs
+    x_llabs = x_abs
+
+    def _x_minmax(self, e, args, st, u, which):
+        if not args and 'numeric_limits' in ((callee(e)[1].get('_qn') or '') + (qtype(kids(e)[0]) if kids(e) else '')) and int_type(dtype(e)):
+            tr = type_range(int_type(dtype(e)))
+            return [(I(tr[0] if which == 'min' else tr[1]), st)]
+        if len(args) != 2:
+            return self._unknown_call(e, args, st, u, callee(e))
+        out = []
+        for (s, (a, b)) in self._x_int_args(e, args, st, u):
+            if isinstance(a, Int) and isinstance(b, Int):
+                f_ = min if which == 'min' else max
+                out.append((Int(f_(a.lo, b.lo), f_(a.hi, b.hi)), s))
+            elif isinstance(a, Ptr) and isinstance(b, Ptr) and a.target is not None and a.target == b.target and \
+                    a.off is not None and b.off is not None:
+                f_ = min if which == 'min' else max
+                out.append((Ptr(a.null if a.null == b.null else 'M', a.target, Int(f_(a.off.lo, b.off.lo), f_(a.off.hi, b.off.hi))), s))
+            else:
+                out.append((vjoin(a, b), s))
+        return out
+
+    def x_min(self, e, args, st, u):
+        return self._x_minmax(e, args, st, u, 'min')
+
+    def x_max(self, e, args, st, u):
+        return self._x_minmax(e, args, st, u, 'max')
+
+    def x_lowest(self, e, args, st, u):
+        return self._x_minmax(e, args, st, u, 'min')
+
+    def x_clamp(self, e, args, st, u):
+        if len(args) != 3:
+            return self._unknown_call(e, args, st, u, callee(e))
+        out = []
+        for (s, (v, lo, hi)) in self._x_int_args(e, args, st, u):
+            if isinstance(v, Int) and isinstance(lo, Int) and isinstance(hi, Int):
+                out.append((Int(min(max(v.lo, lo.lo), hi.lo), min(max(v.hi, lo.hi), hi.hi)), s))
+            else:
+                out.append((TOP, s))
         return out
 
     def x_copy_n(self, e, args, st, u):
